@@ -754,6 +754,9 @@ func parseStringLiteral(literal string) (string, error) {
 			var size int
 			value, size = utf8.DecodeRuneInString(str)
 			str = str[size:] // \ + <character>
+			if value == '\u2028' || value == '\u2029' {
+				continue // line continuation (ES5 7.8.4): contributes nothing
+			}
 		} else {
 			str = str[2:] // \<character>
 			switch chr {
